@@ -7,7 +7,7 @@ Open Scope N_scope.
    {read n, fill_buf, consume k <= available}: every call obeys the cursor contract over
    pcm_bytes = Ser(pcm) (so no call errs or panics), calls are chained from position 0, and the
    history delivers pcm_bytes exactly once with end of stream signalled for ever after. *)
-Theorem C07_byte_reader : forall F ops, valid_file F ->
+Theorem C07_byte_reader : forall F, valid_file F -> forall ops,
   no_bseek ops -> Forall bop_ok (snd (byte_run F ops)) ->
   let atr := map (abs_b F) (snd (byte_run F ops)) in
   Forall (cur_ok (pcm_bytes F)) atr /\ chained 0 atr (bpos F (fst (byte_run F ops))) /\
@@ -15,7 +15,7 @@ Theorem C07_byte_reader : forall F ops, valid_file F ->
 Proof. exact c07_bytes. Qed.
 
 (* Sample reader and its iterator: the same over the interleaved PCM, incl. `next`. *)
-Theorem C07_sample_reader : forall F ops, valid_file F ->
+Theorem C07_sample_reader : forall F, valid_file F -> forall ops,
   no_sseek ops -> Forall sop_ok (snd (sample_run F ops)) ->
   let atr := map (abs_s F) (snd (sample_run F ops)) in
   Forall (cur_ok (pcm F)) atr /\ chained 0 atr (spos F (fst (sample_run F ops))) /\
@@ -24,13 +24,13 @@ Proof. exact c07_samples. Qed.
 
 (* Channel reader: for every channel c the same over that channel's samples; every fill_buf answer
    has one slice per channel, all of the same length. *)
-Theorem C07_channel_reader : forall F ops c, valid_file F ->
+Theorem C07_channel_reader : forall F, valid_file F -> forall ops c,
   (c < N.to_nat (f_channels F))%nat ->
   no_cseek ops -> Forall cop_ok (snd (chan_run F ops)) ->
   let atr := map (abs_c F c) (snd (chan_run F ops)) in
   Forall (cur_ok (chan_pcm F c)) atr /\ chained 0 atr (cpos (fst (chan_run F ops))) /\
   exactly_once (chan_pcm F c) atr /\ Forall (chan_shape F) (snd (chan_run F ops)).
-Proof. intros F ops c V. exact (c07_channels F V ops c). Qed.
+Proof. exact c07_channels. Qed.
 
 (* The byte stream is the serialised sample stream. *)
 Theorem C07_bytes_vs_samples : forall F,
